@@ -335,6 +335,36 @@ def r193(ctx, res):
                               construct="literal tolerance in `%s`" % txt(c)[:120], file=mod.relpath, function=short)
     res.count("comparisons scanned", n)
     ctx.require(res, "R19.3", n, 100, "comparisons")
+    # approximate-comparison helpers of the standard library carry a tolerance of their own:
+    # math.isclose(a, b, abs_tol=eps) still applies rel_tol=1e-09 unless it is switched off
+    HELPERS = {"isclose": ("rel_tol", 1e-09), "allclose": ("rtol", 1e-05)}
+    k = 0
+    for mod in _core_mods(ctx):
+        own = _owner_map(mod)
+        for c in ast.walk(mod.tree):
+            if not isinstance(c, ast.Call):
+                continue
+            name = c.func.attr if isinstance(c.func, ast.Attribute) else (c.func.id if isinstance(c.func, ast.Name) else None)
+            if name not in HELPERS:
+                continue
+            f = own.get(id(c))
+            if f is not None and name in _locals_of(f):
+                continue
+            kw, default = HELPERS[name]
+            k += 1
+            given = [x.value for x in c.keywords if x.arg == kw]
+            if name == "isclose" and len(c.args) >= 3:
+                given = [c.args[2]]
+            ok = bool(given) and (const_num(given[0]) == 0 or "get_eps" in names_in(given[0]))
+            short = f.short if f else "<module>"
+            res.ob("R19.3", "%s:%d" % (mod.relpath, c.lineno), "%s: `%s`" % (short, txt(c)[:80]), ok,
+                   "relative tolerance switched off / derived from get_eps()" if ok else "implicit %s=%g" % (kw, default))
+            if not ok:
+                res.violation("R19.3", f, c,
+                              "`%s` compares with its built-in %s=%g in addition to the tolerance passed to it: the effective tolerance "
+                              "is max(eps, %g*|x|), which does not follow set_eps / set_sig_figures" % (txt(c)[:60], kw, default, default),
+                              construct="hidden relative tolerance in `%s`" % txt(c)[:100], file=mod.relpath, function=short)
+    res.count("approximate-comparison helper calls", k)
 
 
 def r194(ctx, res):
